@@ -1,6 +1,9 @@
 """Generated layer for C11: the copy POLICY of typedpy's __deepcopy__ routines, recognised structurally on the
 AST of /repo's working tree and written to coq/theories/Gen/CopySites.v on every run.
 
+  Structure.__getstate__ / __copy__ (typedpy/structures/structures.py)
+      which names the pickled state keeps (all fields of the inheritance chain | unknown; present in __dict__ |
+      truthy | no filter | unknown); whether __copy__ is the plain __dict__ update
   Structure.__deepcopy__            (typedpy/structures/structures.py)
       the `return self` guard, the loop over self.__dict__.items(), what is stored for each value
       (deepcopy(v[, memo]) | v | a conditional on isinstance(v, <types>)), and whether it is stored with
@@ -285,13 +288,70 @@ def wrapper_deepcopy(tree, cls):
     return ("unknown",)
 
 
+# ------------------------------------------------------------------ Structure.__getstate__, Structure.__copy__
+
+def structure_getstate(tree):
+    """(which fields, filter, value) of the dict comprehension __getstate__ returns:
+    fields: GsAllFields (the fields of the whole inheritance chain) | GsUnknownFields
+    filter: GsInDict (`name in self.__dict__`) | GsTruthy (`self.__dict__.get(name)`) | GsNoFilter | GsUnknownFilter
+    value : GsFieldValue (the stored value, through Field.__serialize__ or not) | GsUnknownValue"""
+    bad = ("GsUnknownFields", "GsUnknownFilter", "GsUnknownValue")
+    fn = _method(tree, "Structure", "__getstate__")
+    if fn is None:
+        return bad
+    body = [s for s in fn.body if not (isinstance(s, ast.Expr) and isinstance(s.value, ast.Constant))]
+    if len(body) != 2 or not isinstance(body[0], ast.Assign) or not isinstance(body[1], ast.Return):
+        return bad
+    a, r = body
+    if len(a.targets) != 1 or not isinstance(a.targets[0], ast.Name) or not isinstance(a.value, ast.Call):
+        return bad
+    src = ast.unparse(a.value)
+    fields = "GsAllFields" if src in ("_get_all_fields_by_name(self.__class__)", "self.__class__.get_all_fields_by_name()",
+                                      "self.get_all_fields_by_name()", "_get_all_fields_by_name(type(self))") \
+        else "GsUnknownFields"
+    comp = r.value
+    if not isinstance(comp, ast.DictComp) or len(comp.generators) != 1:
+        return (fields, "GsUnknownFilter", "GsUnknownValue")
+    g = comp.generators[0]
+    if ast.unparse(g.iter) != a.targets[0].id + ".items()" or not isinstance(g.target, ast.Tuple) \
+            or len(g.target.elts) != 2 or not all(isinstance(e, ast.Name) for e in g.target.elts):
+        return (fields, "GsUnknownFilter", "GsUnknownValue")
+    name, field = g.target.elts[0].id, g.target.elts[1].id
+    if not g.ifs:
+        flt = "GsNoFilter"
+    elif len(g.ifs) == 1 and ast.unparse(g.ifs[0]) == "%s in self.__dict__" % name:
+        flt = "GsInDict"
+    elif len(g.ifs) == 1 and ast.unparse(g.ifs[0]) in ("self.__dict__.get(%s)" % name, "getattr(self, %s, None)" % name):
+        flt = "GsTruthy"
+    else:
+        flt = "GsUnknownFilter"
+    vsrc = ast.unparse(comp.value)
+    reads = ("getattr(self, %s, None)" % name, "getattr(self, %s)" % name, "self.__dict__[%s]" % name,
+             "self.__dict__.get(%s)" % name)
+    ok_vals = reads + tuple("%s.__serialize__(%s)" % (field, rd) for rd in reads)
+    val = "GsFieldValue" if (_is_name(comp.key, name) and vsrc in ok_vals) else "GsUnknownValue"
+    return (fields, flt, val)
+
+
+def structure_copy(tree):
+    """Structure.__copy__ is `result = cls.__new__(cls); result.__dict__.update(self.__dict__); return result`."""
+    fn = _method(tree, "Structure", "__copy__")
+    if fn is None:
+        return False
+    src = [ast.unparse(s) for s in fn.body if not (isinstance(s, ast.Expr) and isinstance(s.value, ast.Constant))]
+    return src in (["cls = self.__class__", "result = cls.__new__(cls)", "result.__dict__.update(self.__dict__)", "return result"],
+                   ["result = self.__class__.__new__(self.__class__)", "result.__dict__.update(self.__dict__)", "return result"])
+
+
 # ------------------------------------------------------------------ output
 
 def facts():
     st = _parse(os.path.join("structures", "structures.py"))
     ci = _parse(os.path.join("fields", "collections_impl.py"))
     self_guard, attr, via = structure_deepcopy(st)
+    gs = structure_getstate(st)
     return {
+        "gs": gs, "copy_dict_update": structure_copy(st),
         "cp_self_if_immutable": self_guard, "cp_attr": attr, "cp_attr_via_setattr": via,
         "cp_wlist": wrapper_deepcopy(ci, "_ListStruct"),
         "cp_wdeque": wrapper_deepcopy(ci, "_DequeStruct"),
@@ -305,7 +365,7 @@ def render(f):
         "(* GENERATED by harness/genmods/copy_sites.py from the AST of /repo/typedpy (structures/structures.py:",
         "   Structure.__deepcopy__; fields/collections_impl.py: the wrappers' __deepcopy__).  Do not edit. *)",
         "From Coq Require Import List. Import ListNotations.",
-        "From TP Require Import Struct.CopyHeap.",
+        "From TP Require Import Struct.CopyHeap Struct.StatePolicy.",
         "",
         "Definition copy_sites : copy_policy :=",
         "  {|",
@@ -316,6 +376,13 @@ def render(f):
         "    cp_wdeque := %s;" % emit_policy(f["cp_wdeque"]),
         "    cp_wdict := %s" % emit_policy(f["cp_wdict"]),
         "  |}.",
+        "",
+        "(* Structure.__getstate__: which names the pickled state keeps *)",
+        "Definition state_sites : state_policy :=",
+        "  {| sp_fields := %s; sp_filter := %s; sp_value := %s |}." % f["gs"],
+        "",
+        "(* Structure.__copy__ is `result.__dict__.update(self.__dict__)` on a new object of the same class *)",
+        "Definition copy_is_dict_update : bool := %s." % b(f["copy_dict_update"]),
         ""])
 
 
